@@ -88,6 +88,9 @@ func makeURLKey(u *url.URL) string {
 
 	// RFC 3986 §6.2.2.2: Normalize percent-encoding in path.
 	path = normalizePercentEncoding(path)
+	// An escaped dot is a dot ("." is unreserved): segments that read "." or ".."
+	// only now are dot-segments as well (§6.2.2.3 comes after §6.2.2.2).
+	path = removeDotSegments(path)
 	result := scheme + "://" + hostPort + path
 
 	// RFC 3986 §6.2.2.2: Normalize percent-encoding in query, if present.
@@ -98,6 +101,34 @@ func makeURLKey(u *url.URL) string {
 	// RFC 3986 §6.1 Equivalence: "fragment components (if any) should be excluded from
 	// the comparison"
 	return result
+}
+
+// removeDotSegments applies RFC 3986 §5.2.4 to an absolute path.
+func removeDotSegments(path string) string {
+	if !strings.HasPrefix(path, "/") || !strings.Contains(path, "/.") {
+		return path
+	}
+	segs := strings.Split(path, "/")
+	out := make([]string, 0, len(segs))
+	for i, seg := range segs {
+		last := i == len(segs)-1
+		switch seg {
+		case ".":
+			if last {
+				out = append(out, "")
+			}
+		case "..":
+			if len(out) > 1 {
+				out = out[:len(out)-1]
+			}
+			if last {
+				out = append(out, "")
+			}
+		default:
+			out = append(out, seg)
+		}
+	}
+	return strings.Join(out, "/")
 }
 
 // normalizePercentEncoding rewrites percent-encoded characters in a URL path or query
